@@ -3,10 +3,10 @@ CONSTANTS
   Scripts <- ScriptsVal
   Table <- TableVal
   StrictFin = TRUE
-  NV = 1
-  MaxBody = 1
-  MaxOps = 2
-  MaxOut = 1
+  NV = 2
+  MaxBody = 3
+  MaxOps = 3
+  MaxOut = 2
   MaxSpin = 1
   Sync = FALSE
   Live = TRUE
@@ -14,5 +14,6 @@ CONSTANTS
   CancelInLoop = FALSE
   DropCancels = FALSE
   Emit = FALSE
-PROPERTIES DropNeverLeaks
+INVARIANTS TypeOK ContractHolds AtMostOnce ResultOnlyAfterEnd FinalValueAfterResult MonotoneObserved FlagOnlyByCancel
+PROPERTIES WorkerWaitFree CancelTerminates
 CHECK_DEADLOCK FALSE
